@@ -23,16 +23,9 @@ impl RngCore for SymRng {
     }
 }
 
-/// tokio Instant at `secs` (+nanos) on an arbitrary timeline: built from the (secs, nanos) layout of
-/// std::time::Instant on Linux; no clock is read.
+/// tokio (model) Instant at `secs`+`nanos` since the model's origin; no clock is read.
 pub(crate) fn instant(secs: i64, nanos: u32) -> Instant {
-    #[repr(C)]
-    struct Raw {
-        s: i64,
-        n: u32,
-    }
-    let std_i: std::time::Instant = unsafe { std::mem::transmute(Raw { s: secs, n: nanos }) };
-    Instant::from_std(std_i)
+    Instant::model_at(Duration::new(secs as u64, nanos))
 }
 
 pub(crate) fn any_state() -> State {
@@ -89,24 +82,23 @@ fn rand_step(fail_rate: f64, repair_rate: f64) -> (bool, bool) {
 }
 
 // @verif id=C03 tier=quick role=rand_process_keeps_explicit derived=0 witness=c03_oneway_partition_survives_random_failures timeout=900 desc=fail_rate=1,repair_rate=1
-#[kani::proof]
-#[kani::unwind(4)]
+crate::verif_proof! { unwind = 4;
 fn c03_rand_process_keeps_explicit_partition_rates_1_1() {
     let (changed, one_way) = rand_step(1.0, 1.0);
     kani::cover!(changed, "random process changed a direction");
     kani::cover!(one_way, "one-way explicit partition");
 }
+}
 // @verif id=C03 tier=quick role=rand_process_keeps_explicit witness=c03_oneway_partition_survives_random_failures timeout=900 desc=fail_rate=0.5,repair_rate=0.5
-#[kani::proof]
-#[kani::unwind(4)]
+crate::verif_proof! { unwind = 4;
 fn c03_rand_process_keeps_explicit_partition_rates_half() {
     let (changed, one_way) = rand_step(0.5, 0.5);
     kani::cover!(changed, "random process changed a direction");
     kani::cover!(one_way, "one-way explicit partition");
 }
+}
 // @verif id=C03 tier=quick role=rand_process_off timeout=900 desc=fail_rate=0
-#[kani::proof]
-#[kani::unwind(4)]
+crate::verif_proof! { unwind = 4;
 fn c03_rand_process_off_changes_nothing_healthy() {
     let mut link = Link::new(instant(1000, 0));
     link.state_a_b = if kani::any() { State::Healthy } else { State::ExplicitPartition };
@@ -119,4 +111,423 @@ fn c03_rand_process_off_changes_nothing_healthy() {
     assert!(is_healthy(b) == is_healthy(link.state_b_a) && is_explicit(b) == is_explicit(link.state_b_a));
     kani::cover!(is_healthy(a) && is_explicit(b), "one-way partition untouched");
     std::mem::forget(link);
+}
+}
+
+// ---------------------------------------------------------------------------------------------------
+// helpers for queue states
+
+fn sa(ip: IpAddr, port: u16) -> SocketAddr {
+    SocketAddr::new(ip, port)
+}
+fn udp_msg() -> Protocol {
+    Protocol::Udp(Datagram(Bytes::new()))
+}
+/// Queue one in-flight message with identity `id` (carried in the source port), direction a->b or b->a.
+fn push_sent(link: &mut Link, id: u16, a_to_b: bool, status: DeliveryStatus) {
+    let (s, d) = if a_to_b { (IP_A, IP_B) } else { (IP_B, IP_A) };
+    link.sent.push_back(Sent { src: sa(s, id), dst: sa(d, 9), status, protocol: udp_msg() });
+}
+fn id_of(s: &Sent) -> u16 {
+    s.src.port()
+}
+fn is_a_to_b(s: &Sent) -> bool {
+    s.src.ip() == IP_A
+}
+
+// ---------------------------------------------------------------------------------------------------
+// C03-S2/S3 + C14-S1: one send (the whole `enqueue_message`: coin flips, routing by direction state,
+// latency sampling, maturation) from a link with symbolic direction states (no Hold: outside the C03
+// alphabet) and an empty queue.
+//  * a direction that is ExplicitPartition before the call still is afterwards, and a message sent
+//    in that direction is neither queued nor matured - whatever the coins (any fail/repair rate);
+//  * with fail_rate = 0 a message on a Healthy direction is queued exactly once with a deliver-after
+//    instant in [now+min, now+max] (latency window), nothing else changes.
+fn send_step(fail_rate: f64, repair_rate: f64) -> (bool, bool, bool) {
+    let now = instant(1000, 0);
+    let mut link = Link::new(now);
+    link.state_a_b = any_state();
+    link.state_b_a = any_state();
+    kani::assume(!matches!(link.state_a_b, State::Hold) && !matches!(link.state_b_a, State::Hold));
+    let (pre_ab, pre_ba) = (link.state_a_b, link.state_b_a);
+    let cfg = loss_cfg(fail_rate, repair_rate);
+    let mut rng = SymRng;
+    let a_to_b: bool = kani::any();
+    let (s, d) = if a_to_b { (IP_A, IP_B) } else { (IP_B, IP_A) };
+    let r = link.enqueue_message(&cfg, &mut rng, sa(s, 7), sa(d, 9), udp_msg());
+    assert!(r.is_ok());
+    std::mem::forget(r);
+    let pre_dir = if a_to_b { pre_ab } else { pre_ba };
+    if is_explicit(pre_ab) {
+        assert!(is_explicit(link.state_a_b), "explicit partition a->b survives the send");
+    }
+    if is_explicit(pre_ba) {
+        assert!(is_explicit(link.state_b_a), "explicit partition b->a survives the send");
+    }
+    let queued = link.sent.len();
+    let matured: usize = link.deliverable.values().map(|q| q.len()).sum();
+    assert!(queued + matured <= 1);
+    if is_explicit(pre_dir) {
+        assert!(queued == 0 && matured == 0, "nothing sent across an explicitly partitioned direction is queued");
+    }
+    if fail_rate == 0.0 && is_healthy(pre_dir) {
+        assert!(queued + matured == 1, "healthy direction, no random failures: the message is in flight exactly once");
+        if queued == 1 {
+            let m = link.sent.front().unwrap();
+            assert!(m.src == sa(s, 7) && m.dst == sa(d, 9));
+            match m.status {
+                DeliveryStatus::DeliverAfter(t) => {
+                    assert!(t >= now && t <= now + Duration::from_millis(100), "C14: latency inside [min, max]");
+                }
+                DeliveryStatus::Hold => panic!("not held"),
+            }
+        }
+    }
+    std::mem::forget(link);
+    (is_explicit(pre_dir), queued == 1, matured == 1)
+}
+// @verif id=C03,C14 tier=quick role=send_step timeout=900 desc=fail_rate=0
+crate::verif_proof! { unwind = 4;
+#[kani::stub(std::collections::VecDeque::remove, crate::verif_common::vecdeque_remove_stub)]
+fn c03_send_step_no_random_failures() {
+    let (explicit, queued, matured) = send_step(0.0, 1.0);
+    kani::cover!(explicit, "send across an explicit partition");
+    kani::cover!(queued, "message in flight");
+    kani::cover!(matured, "zero-latency message matured at once");
+}
+}
+// @verif id=C03 tier=quick role=send_step timeout=900 desc=fail_rate=0.5,repair_rate=0.5
+crate::verif_proof! { unwind = 4;
+#[kani::stub(std::collections::VecDeque::remove, crate::verif_common::vecdeque_remove_stub)]
+fn c03_send_step_random_failures_half() {
+    let (explicit, queued, _) = send_step(0.5, 0.5);
+    kani::cover!(explicit, "send across an explicit partition");
+    kani::cover!(queued, "message in flight");
+}
+}
+// @verif id=C03 tier=thorough role=send_step timeout=900 desc=fail_rate=1,repair_rate=1
+crate::verif_proof! { unwind = 4;
+#[kani::stub(std::collections::VecDeque::remove, crate::verif_common::vecdeque_remove_stub)]
+fn c03_send_step_random_failures_always() {
+    let (explicit, _, _) = send_step(1.0, 1.0);
+    kani::cover!(explicit, "send across an explicit partition");
+}
+}
+
+// ---------------------------------------------------------------------------------------------------
+// C03-S2: imposing a partition drops exactly the in-flight messages of the affected direction(s);
+// C03-S3: explicit repair restores exactly the named direction(s).
+// Queue: two in-flight messages with symbolic directions. Operation: symbolic choice of
+// partition / partition_oneway(a,b) / partition_oneway(b,a) / repair / repair_oneway(a,b) / (b,a).
+fn partition_op(op: u8) -> (bool, bool, bool) {
+    let now = instant(1000, 0);
+    let mut link = Link::new(now);
+    link.state_a_b = any_state();
+    link.state_b_a = any_state();
+    kani::assume(!matches!(link.state_a_b, State::Hold) && !matches!(link.state_b_a, State::Hold));
+    let (pre_ab, pre_ba) = (link.state_a_b, link.state_b_a);
+    let d0: bool = kani::any();
+    let d1: bool = kani::any();
+    push_sent(&mut link, 1, d0, DeliveryStatus::DeliverAfter(now + Duration::from_millis(5)));
+    push_sent(&mut link, 2, d1, DeliveryStatus::DeliverAfter(now + Duration::from_millis(6)));
+    match op {
+        0 => link.explicit_partition(),
+        1 => link.partition_oneway(IP_A, IP_B),
+        2 => link.partition_oneway(IP_B, IP_A),
+        3 => link.explicit_repair(),
+        4 => link.repair_oneway(IP_A, IP_B),
+        _ => link.repair_oneway(IP_B, IP_A),
+    }
+    let drop_ab = op == 0 || op == 1;
+    let drop_ba = op == 0 || op == 2;
+    let keep0 = !(if d0 { drop_ab } else { drop_ba });
+    let keep1 = !(if d1 { drop_ab } else { drop_ba });
+    assert!(link.sent.len() == keep0 as usize + keep1 as usize, "exactly the messages of the partitioned direction(s) are dropped");
+    if keep0 {
+        assert!(id_of(&link.sent[0]) == 1);
+    }
+    if keep1 {
+        assert!(id_of(&link.sent[link.sent.len() - 1]) == 2);
+    }
+    // direction states
+    match op {
+        0 => assert!(is_explicit(link.state_a_b) && is_explicit(link.state_b_a)),
+        1 => assert!(is_explicit(link.state_a_b) && is_explicit(link.state_b_a) == is_explicit(pre_ba) && is_healthy(link.state_b_a) == is_healthy(pre_ba)),
+        2 => assert!(is_explicit(link.state_b_a) && is_explicit(link.state_a_b) == is_explicit(pre_ab) && is_healthy(link.state_a_b) == is_healthy(pre_ab)),
+        3 => assert!(is_healthy(link.state_a_b) && is_healthy(link.state_b_a)),
+        4 => assert!(is_healthy(link.state_a_b) && is_explicit(link.state_b_a) == is_explicit(pre_ba)),
+        _ => assert!(is_healthy(link.state_b_a) && is_explicit(link.state_a_b) == is_explicit(pre_ab)),
+    }
+    std::mem::forget(link);
+    (d0, d1, is_explicit(pre_ab))
+}
+// @verif id=C03 tier=quick role=partition_ops timeout=900 desc=partition_oneway(a,b)
+crate::verif_proof! { unwind = 5;
+fn c03_partition_oneway_drops_inflight_of_that_direction() {
+    let (d0, d1, _) = partition_op(1);
+    kani::cover!(d0 && !d1, "one-way partition drops one of two in-flight messages");
+}
+}
+// @verif id=C03 tier=quick role=partition_ops timeout=900 desc=partition
+crate::verif_proof! { unwind = 5;
+fn c03_partition_drops_all_inflight() {
+    let (d0, d1, _) = partition_op(0);
+    kani::cover!(d0 != d1, "messages in both directions dropped");
+}
+}
+// @verif id=C03 tier=quick role=partition_ops timeout=900 desc=repair_oneway(b,a)
+crate::verif_proof! { unwind = 5;
+fn c03_repair_oneway_leaves_other_direction() {
+    let (_, _, ex_ab) = partition_op(5);
+    kani::cover!(ex_ab, "repairing b->a leaves a->b partitioned");
+}
+}
+// @verif id=C03 tier=thorough role=partition_ops timeout=900 desc=partition_oneway(b,a)
+crate::verif_proof! { unwind = 5;
+fn c03_partition_oneway_reverse() {
+    let (d0, d1, _) = partition_op(2);
+    kani::cover!(!d0 && d1, "b->a message kept out");
+}
+}
+// @verif id=C03 tier=thorough role=partition_ops timeout=900 desc=repair
+crate::verif_proof! { unwind = 5;
+fn c03_repair_restores_both() {
+    let (_, _, ex_ab) = partition_op(3);
+    kani::cover!(ex_ab, "explicit partition repaired");
+}
+}
+// @verif id=C03 tier=thorough role=partition_ops timeout=900 desc=repair_oneway(a,b)
+crate::verif_proof! { unwind = 5;
+fn c03_repair_oneway_ab() {
+    let (_, _, ex_ab) = partition_op(4);
+    kani::cover!(ex_ab, "a->b repaired");
+}
+}
+
+// ---------------------------------------------------------------------------------------------------
+// C08: hold / release / tick on a queue of three in-flight messages (symbolic directions, symbolic
+// deliver-after instants around `now`).
+//  S1  hold marks the link and every queued message held; a later tick moves nothing.
+//  S2  release + tick moves exactly the held messages, each once, in queue order per destination,
+//      and leaves messages that are not yet due queued; the id multiset is preserved throughout.
+fn hold_release<const N: usize>(dir: [bool; N], due_now: [bool; N], do_hold: bool, do_release: bool) -> (usize, usize) {
+    let now = instant(1000, 0);
+    let mut link = Link::new(now);
+    // directions are concrete per instance (a symbolic destination makes the per-destination queue
+    // lookup a symbolic table index); the deliver-after instants are symbolic
+    // which messages are due at the tick (now + 2 ms) is concrete per instance: a symbolic due-ness
+    // makes the removal index symbolic; the exact deliver-after instants stay symbolic inside their
+    // class (due: <= 2 ms, not due: 2 ms + 1 ns ..= 4 ms)
+    let mut due_ms = [0u8; N];
+    let mut i = 0;
+    while i < N {
+        let nanos: u32 = kani::any();
+        if due_now[i] {
+            kani::assume(nanos <= 2_000_000);
+            due_ms[i] = 0;
+        } else {
+            kani::assume(nanos > 2_000_000 && nanos <= 4_000_000);
+            due_ms[i] = 4;
+        }
+        push_sent(&mut link, i as u16 + 1, dir[i], DeliveryStatus::DeliverAfter(now + Duration::new(0, nanos)));
+        i += 1;
+    }
+    if do_hold {
+        link.hold();
+        assert!(matches!(link.state_a_b, State::Hold) && matches!(link.state_b_a, State::Hold));
+        let mut j = 0;
+        while j < N {
+            assert!(matches!(link.sent[j].status, DeliveryStatus::Hold) && id_of(&link.sent[j]) == j as u16 + 1);
+            j += 1;
+        }
+    }
+    let later = now + Duration::new(0, 2_000_000);
+    if do_hold && !do_release {
+        link.tick(later);
+        assert!(link.sent.len() == N, "held messages are not delivered while the hold lasts");
+        assert!(link.deliverable.values().map(|q| q.len()).sum::<usize>() == 0);
+        std::mem::forget(link);
+        return (N, 0);
+    }
+    if do_release {
+        link.release();
+        assert!(is_healthy(link.state_a_b) && is_healthy(link.state_b_a));
+    }
+    link.tick(later);
+    // expected: held (if any) -> all due at release time `now` <= later; otherwise due iff due_ms <= 2
+    let mut exp_to_b = [0u16; N];
+    let mut nb = 0;
+    let mut exp_to_a = [0u16; N];
+    let mut na = 0;
+    let mut exp_left = 0;
+    let mut k = 0;
+    while k < N {
+        let due = do_hold || due_ms[k] <= 2;
+        if due {
+            if dir[k] {
+                exp_to_b[nb] = k as u16 + 1;
+                nb += 1;
+            } else {
+                exp_to_a[na] = k as u16 + 1;
+                na += 1;
+            }
+        } else {
+            exp_left += 1;
+        }
+        k += 1;
+    }
+    assert!(link.sent.len() == exp_left, "messages that are not due stay queued");
+    let qb = link.deliverable.get(&IP_B).map(|q| q.len()).unwrap_or(0);
+    let qa = link.deliverable.get(&IP_A).map(|q| q.len()).unwrap_or(0);
+    assert!(qb == nb && qa == na, "each due message is handed over exactly once");
+    let mut m = 0;
+    while m < nb {
+        assert!(link.deliverable.get(&IP_B).unwrap()[m].src.port() == exp_to_b[m], "per-direction order is the send order");
+        m += 1;
+    }
+    m = 0;
+    while m < na {
+        assert!(link.deliverable.get(&IP_A).unwrap()[m].src.port() == exp_to_a[m]);
+        m += 1;
+    }
+    std::mem::forget(link);
+    (exp_left, nb + na)
+}
+// @verif id=C08 tier=quick role=hold_blocks timeout=900
+crate::verif_proof! { unwind = 5;
+#[kani::stub(std::collections::VecDeque::remove, crate::verif_common::vecdeque_remove_stub)]
+fn c08_hold_then_tick_delivers_nothing() {
+    let (left, moved) = hold_release::<3>([true, false, true], [true, false, true], true, false);
+    kani::cover!(left == 3 && moved == 0, "all three stay held");
+}
+}
+// @verif id=C08 tier=quick role=release_delivers timeout=900
+crate::verif_proof! { unwind = 5;
+#[kani::stub(std::collections::VecDeque::remove, crate::verif_common::vecdeque_remove_stub)]
+fn c08_hold_release_tick_delivers_all_in_order() {
+    let (left, moved) = hold_release::<2>([true, true], [false, true], true, true);
+    assert!(left == 0 && moved == 2);
+    kani::cover!(moved == 2, "both released, in send order");
+}
+}
+// @verif id=C08,C14 tier=quick role=tick_matures_due timeout=900
+crate::verif_proof! { unwind = 5;
+#[kani::stub(std::collections::VecDeque::remove, crate::verif_common::vecdeque_remove_stub)]
+fn c14_tick_matures_exactly_the_due_messages_in_order() {
+    let (left, moved) = hold_release::<2>([true, true], [true, true], false, false);
+    assert!(left == 0 && moved == 2);
+    kani::cover!(moved == 2, "both due: delivered in send order");
+}
+}
+// @verif id=C08,C14 tier=quick role=tick_matures_due timeout=900 desc=second-message-overtakes(first-not-due)
+crate::verif_proof! { unwind = 5;
+#[kani::stub(std::collections::VecDeque::remove, crate::verif_common::vecdeque_remove_stub)]
+fn c14_tick_leaves_undue_message_queued() {
+    let (left, moved) = hold_release::<2>([true, true], [false, true], false, false);
+    assert!(left == 1 && moved == 1);
+    kani::cover!(moved == 1, "later message with shorter latency overtakes");
+}
+}
+// @verif id=C08,C14 tier=thorough role=tick_matures_due timeout=900 desc=three-messages,two-directions
+crate::verif_proof! { unwind = 6;
+#[kani::stub(std::collections::VecDeque::remove, crate::verif_common::vecdeque_remove_stub)]
+fn c14_tick_three_messages_two_directions() {
+    let (left, moved) = hold_release::<3>([true, false, true], [true, true, false], false, false);
+    assert!(left == 1 && moved == 2);
+    kani::cover!(moved == 2, "one per direction");
+}
+}
+
+// C08-S3: the links iterator shows exactly the in-flight messages in order; SentRef::deliver
+// schedules exactly that one message for the next tick.
+// @verif id=C08 tier=quick role=manual_delivery timeout=900
+crate::verif_proof! { unwind = 5;
+#[kani::stub(std::collections::VecDeque::remove, crate::verif_common::vecdeque_remove_stub)]
+fn c08_sentref_deliver_schedules_exactly_one() {
+    sentref_deliver(1, [true, false, true]);
+}
+}
+// @verif id=C08 tier=thorough role=manual_delivery timeout=900 desc=pick-last
+crate::verif_proof! { unwind = 5;
+#[kani::stub(std::collections::VecDeque::remove, crate::verif_common::vecdeque_remove_stub)]
+fn c08_sentref_deliver_last() {
+    sentref_deliver(2, [true, true, false]);
+}
+}
+fn sentref_deliver(pick: usize, dir: [bool; 3]) {
+    let now = instant(1000, 0);
+    let mut link = Link::new(now);
+    let mut i = 0;
+    while i < 3 {
+        push_sent(&mut link, i as u16 + 1, dir[i], DeliveryStatus::DeliverAfter(now));
+        i += 1;
+    }
+    link.hold();
+    {
+        let it = LinkIter { a: IP_A, b: IP_B, now: link.now, iter: link.sent.iter_mut() };
+        assert!(it.pair() == (IP_A, IP_B));
+        let mut n = 0;
+        for s in it {
+            let (src, dst) = s.pair();
+            assert!(src.port() == n as u16 + 1 && dst.port() == 9, "iterator shows the in-flight messages in order");
+            assert!((src.ip() == IP_A) == dir[n]);
+            if n == pick {
+                s.deliver();
+            }
+            n += 1;
+        }
+        assert!(n == 3);
+    }
+    link.tick(now + Duration::from_millis(1));
+    assert!(link.sent.len() == 2, "exactly one message left the held queue");
+    let total: usize = link.deliverable.values().map(|q| q.len()).sum();
+    assert!(total == 1);
+    let dst_ip = if dir[pick] { IP_B } else { IP_A };
+    assert!(link.deliverable.get(&dst_ip).unwrap()[0].src.port() == pick as u16 + 1, "the chosen message, to its destination");
+    let mut j = 0;
+    while j < 2 {
+        assert!(matches!(link.sent[j].status, DeliveryStatus::Hold));
+        j += 1;
+    }
+    kani::cover!(total == 1, "one message delivered manually");
+    std::mem::forget(link);
+}
+
+// ---------------------------------------------------------------------------------------------------
+// C14-S1: the sampled latency is clamped into [min, max] for EVERY sample the distribution can
+// produce (the rand_distr model returns an arbitrary non-negative finite f64 derived from one
+// symbolic rng word) and every min <= max (whole milliseconds below 2^32 ms); a per-link latency
+// setting takes precedence over the global one.
+// @verif id=C14 tier=quick role=latency_clamp timeout=1200 mem=16
+crate::verif_proof! { unwind = 4;
+fn c14_sampled_latency_is_clamped_into_window() {
+    let min_ms: u32 = kani::any();
+    let max_ms: u32 = kani::any();
+    kani::assume(min_ms <= max_ms);
+    let lat = config::Latency {
+        min_message_latency: Duration::new((min_ms / 1000) as u64, (min_ms % 1000) * 1_000_000),
+        max_message_latency: Duration::new((max_ms / 1000) as u64, (max_ms % 1000) * 1_000_000),
+        latency_distribution: Exp::new(5.0).unwrap(),
+    };
+    let other = config::Latency {
+        min_message_latency: Duration::from_secs(7000),
+        max_message_latency: Duration::from_secs(9000),
+        latency_distribution: Exp::new(5.0).unwrap(),
+    };
+    let mut link = Link::new(instant(1000, 0));
+    let per_link: bool = kani::any();
+    let (mn, mx) = (lat.min_message_latency, lat.max_message_latency);
+    let global = if per_link {
+        link.config.latency = Some(lat);
+        other
+    } else {
+        lat
+    };
+    let mut rng = SymRng;
+    let d = link.delay(&global, &mut rng);
+    assert!(d >= mn && d <= mx, "latency lies inside the configured window (per-link setting wins)");
+    kani::cover!(per_link && d == mx && mn < mx, "clamped to the per-link maximum");
+    kani::cover!(d > mn && d < mx, "strictly inside the window");
+    std::mem::forget(link);
+}
 }
